@@ -43,6 +43,8 @@ fn alphabet() -> Vec<Vec<u8>> {
     a.push(b"\r".to_vec());
     a.push("\u{a0}".as_bytes().to_vec());
     a.push("\u{3000}".as_bytes().to_vec());
+    // a four-byte sequence cut after its third byte (invalid, but as long as U+FFFD)
+    a.push(vec![0xF0, 0x9F, 0x98]);
     a
 }
 
